@@ -61,19 +61,12 @@ func r14_6(c *Ctx, r *Report) {
 			return nil, false
 		}
 		ev = &evaluator{leaf: leaf, inline: inlineLibrary, counted: len(recs) + 8}
-		ev.visit = func(fr *evalFrame, call *ssa.Call) {
-			callee := call.Common().StaticCallee()
-			if callee == nil || !strings.HasPrefix(callee.String(), "(*container/list.List).Push") || len(call.Common().Args) != 2 {
-				return
+		ev.collectList(&pushed, func(o interface{}, ok bool) string {
+			if rc, isR := o.(absRec); ok && isR {
+				return rc.name
 			}
-			if o, ok := ev.eval(fr, unwrapIface(call.Common().Args[1]), 0); ok {
-				if rc, isR := o.(absRec); isR {
-					pushed = append(pushed, rc.name)
-					return
-				}
-			}
-			pushed = append(pushed, "?")
-		}
+			return "?"
+		})
 		_, outcome := ev.run(fn, nil, nil, nil, nil)
 		if outcome != "return" {
 			return "", outcome + " " + ev.fail
